@@ -18,7 +18,7 @@ def boundary_jobs(U, ecos, rnd, quick, maxval=None):
     for eco in ecos:
         pool = [(t, p) for t, p in U[eco] if _RUN.search(t) and len(t) < 40]
         if not pool: continue
-        for r in range(3 if quick else 24):
+        for r in range(3 if quick else 60):
             texts, part = [], []
             for t, p in rnd.sample(pool, min(4, len(pool))):
                 runs = list(_RUN.finditer(t))
@@ -55,7 +55,7 @@ def run_ref(run, prop, ecos, caps, seeded_fn=None, extra_jobs_fn=None, shard=350
             blk = mem[i:i + shard]
             jobs.append({"k": "matrix", "eco": eco, "tag": "U", "texts": [t for t, _ in blk], "part": [p for _, p in blk]})
         if len(mem) > shard:
-            for r in range(len(mem) // shard):
+            for r in range((len(mem) // shard) * (1 if quick else 3)):
                 blk = rnd.sample(mem, shard)
                 jobs.append({"k": "matrix", "eco": eco, "tag": "Ux", "texts": [t for t, _ in blk], "part": [p for _, p in blk]})
     jobs += boundary_jobs(U, ecos, rnd, quick, maxval=boundary_max)
